@@ -10,6 +10,10 @@ trap 'rm -rf "$tmp"' EXIT
 jobs=${JOBS:-3}
 run_one() {
 	d=$1; n=$(basename "$d")
+	if grep -q '"obsolete"' "$d/meta.json"; then
+		echo "obsolete: neutralised by a later fix: commit (see meta.json)" > "$tmp/$n.out"
+		return
+	fi
 	extra=$(python3 -c "import json;print(' '.join(json.load(open('$d/meta.json')).get('also_check',[])))" 2>/dev/null)
 	prop=$(python3 -c "import json;print(json.load(open('$d/meta.json'))['property'])")
 	tools/seeded.sh "$d" $prop $extra > "$tmp/$n.out" 2>&1
